@@ -87,6 +87,50 @@ type Query { node: Node person: Person pet: Pet }
     }
 }
 
+/// "lassos": the fragment spread from the operation is NOT on a cycle but leads into one (a plain wrapper
+/// around a recursive fragment, a chain into a longer cycle, two wrappers sharing one cycle)
+fn lasso_inputs(out: &mut Vec<Input>) {
+    let schema = r#"
+interface Node { id: ID! next: Node friend: Person }
+type Person implements Node { id: ID! next: Node friend: Person name: String }
+type Post { title: String author: Person top: Person }
+type Query { node: Node person: Person post: Post }
+"#;
+    for tail in 1..=3usize {
+        for cyc in 1..=3usize {
+            for via in ["field", "direct"] {
+                for abstract_cycle in [false, true] {
+                    let cty = if abstract_cycle { "Node" } else { "Person" };
+                    let link = if abstract_cycle { "next" } else { "friend" };
+                    let tn = if abstract_cycle { "__typename " } else { "" };
+                    let mut q = String::from("query Q { post { title ...T0 } }\n");
+                    for i in 0..tail {
+                        if i + 1 < tail {
+                            q.push_str(&format!("fragment T{} on Post {{ title ...T{} }}\n", i, i + 1));
+                        } else if abstract_cycle {
+                            q.push_str(&format!("fragment T{} on Post {{ author {{ name next {{ __typename ...C0 }} }} }}\n", i));
+                        } else {
+                            q.push_str(&format!("fragment T{} on Post {{ top {{ name ...C0 }} }}\n", i));
+                        }
+                    }
+                    for j in 0..cyc {
+                        let next = (j + 1) % cyc;
+                        let body = if via == "field" { format!("{}id {} {{ {}...C{} }}", tn, link, tn, next) } else { format!("{}id ...C{}", tn, next) };
+                        q.push_str(&format!("fragment C{} on {} {{ {} }}\n", j, cty, body));
+                    }
+                    out.push(Input { family: format!("lasso/{}/{}/tail{}/cycle{}", if abstract_cycle { "interface" } else { "object" }, via, tail, cyc), schema: schema.into(), query: q });
+                }
+            }
+        }
+    }
+    // two wrappers sharing one recursive fragment
+    out.push(Input {
+        family: "lasso/shared-cycle".into(),
+        schema: schema.into(),
+        query: "query Q { post { ...A ...B } }\nfragment A on Post { author { ...R } }\nfragment B on Post { top { ...R } }\nfragment R on Person { id friend { ...R } }\n".into(),
+    });
+}
+
 fn input_cycle_inputs(out: &mut Vec<Input>) {
     for (name, body) in [
         ("self-nullable", "input A { a: A x: Int }"),
@@ -228,11 +272,12 @@ pub fn run(a: &Args) -> i32 {
     let mut rep = Report::new(
         "C17",
         a,
-        "adversarial (schema, query) texts: spread cycles of length 1..6 on objects / interfaces / unions, closed directly, through a field or through inline fragments, with and without __typename; input-type cycles incl. non-null and @oneOf; selection / type-expression / inline-fragment nesting to depth 64; empty, self-referential and ill-formed abstract types; duplicate definitions; broken syntax; each input runs in its own worker process (exit status / signal / 10 s timeout observed); non-trivial = the input contains a cycle or nesting depth >= 16",
+        "adversarial (schema, query) texts: spread cycles of length 1..6 on objects / interfaces / unions, closed directly, through a field or through inline fragments, with and without __typename; lassos (a non-recursive fragment chain of length 1..3 leading into a spread cycle of length 1..3, on objects and interfaces, through fields or directly; two wrappers sharing one recursive fragment); input-type cycles incl. non-null and @oneOf; selection / type-expression / inline-fragment nesting to depth 64; empty, self-referential and ill-formed abstract types; duplicate definitions; broken syntax; each input runs in its own worker process (exit status / signal / 10 s timeout observed); non-trivial = the input contains a cycle or nesting depth >= 16",
     );
     let mut rng = Rng::new(a.seed);
     let mut inputs = Vec::new();
     cycle_inputs(&mut rng, &mut inputs);
+    lasso_inputs(&mut inputs);
     input_cycle_inputs(&mut inputs);
     depth_inputs(&mut inputs);
     odd_abstract_inputs(&mut inputs);
@@ -252,7 +297,7 @@ pub fn run(a: &Args) -> i32 {
         std::fs::write(&sp, &inp.schema).unwrap();
         std::fs::write(&qp, &inp.query).unwrap();
         let (kind, out) = run_worker(&exe, &sp, &qp, Duration::from_secs(10));
-        let nontrivial = inp.family.contains("cycle") || inp.family.contains("depth16") || inp.family.contains("depth32") || inp.family.contains("depth64");
+        let nontrivial = inp.family.contains("cycle") || inp.family.contains("lasso") || inp.family.contains("depth16") || inp.family.contains("depth32") || inp.family.contains("depth64");
         let case_key = format!("{}\n{}", inp.schema, inp.query);
         rep.case(if nontrivial { Some(&case_key) } else { None });
         let fam = inp.family.split('/').take(2).collect::<Vec<_>>().join("/");
